@@ -360,6 +360,9 @@ class Ctx:
         return [k for k in items if k["property"] == self.prop]
 
     def finish(self, level="proof", checker_cmd=None, extra=None):
+        if level not in ("exploration", "fault_enumeration", "model_checking", "proof", "translation_validation", "other"):
+            self.coverage.setdefault("level_note", "declared level %r; recorded as proof (partial)" % level)
+            level = "proof"
         known = {k["class"]: k for k in self.known_findings()}
         unknown = [f for f in self.failures if f["class"] not in known]
         hit = {}
